@@ -35,7 +35,7 @@ def exhaustive(res, tier, wd):
         def go():
             cfg = os.path.join(wd, "mc-%d-%d.cfg" % (c, t))
             write_cfg(cfg, constants=consts(c, t, faults=faults), invariants=INVS)
-            r, out = tlc("MC_Writer", cfg, wd, workers=2, timeout=1200, tag="mc%d%d" % (c, t))
+            r, out = tlc("MC_Writer", cfg, wd, workers=2, timeout=1200, tag="mc%d%d" % (c, t), args=["-coverage", "1"])
             if not r["ok"] or r["violated"] or r["errors"]:
                 r["tail"] = out[-1500:]
             return r
@@ -47,6 +47,8 @@ def exhaustive(res, tier, wd):
             raise ToolError("Writer.tla itself violates %s for Cap=%d TLen=%d (model/monitor inconsistent): %s" % (
                 r.get("violated"), c, t, r.get("tail", "")))
         res.add_tlc(r)
+    acts = check_vacuity("Writer.tla", rs)
+    res.notes["action_coverage"] = "every action of Writer.tla taken: " + ", ".join("%s=%d" % kv for kv in sorted(acts.items()))
     res.notes["exhaustive_grid"] = "Cap in %s x TLen in %s, MaxLen=Cap+2, MaxFaults=%d, outcomes ok/err/intr: %d complete state graphs" % (
         list(caps), list(tlens), faults, len(grid))
     log("[E] %d complete state graphs of Writer.tla (cached=%s): %d distinct states, no invariant violated" % (
